@@ -4,8 +4,8 @@ Confirms in a fresh scratch worktree: patch applies, full test-suite passes (sta
 Writes /verif/seeded/<Cxx><v>/{patch.diff,demo.py,notes.md,meta.json}."""
 import json, os, shutil, subprocess, sys, tempfile
 prop, v = sys.argv[1], sys.argv[2]
-src = f"/tmp/seed/{prop}/_seed/{v}"
-dst = f"/verif/seeded/{prop}{v}"
+src = f"{os.environ.get("SEED_ROOT", "/tmp/seed")}/{prop}/_seed/{v}"
+dst = f"/verif/seeded/{prop}{os.environ.get("SEED_SUFFIX", v)}"
 wt = tempfile.mkdtemp(prefix="ing-", dir="/tmp"); os.rmdir(wt)
 subprocess.run(["git", "-C", "/repo", "worktree", "add", "-q", "--detach", wt, "HEAD"], check=True)
 meta = {"property": prop, "variant": v, "expected_checks": [prop]}
